@@ -12,6 +12,7 @@ import (
 	"verifharness/engine/report"
 	"verifharness/engine/rng"
 	"verifharness/engine/runner"
+	vg "verifharness/engine/valuegen"
 )
 
 // Ops of the misuse alphabet. The first numReduced ops form the bounded-exhaustive alphabet.
@@ -407,7 +408,7 @@ type c12Witness struct {
 // C12: writer misuse.
 func C12(c *runner.Cfg) *report.Result {
 	res := report.New("C12", "")
-	res.Rule = fmt.Sprintf("call sequences over an explicitly owned writer and its handles: bounded-exhaustive over a %d-op alphabet up to the tier's length, plus seeded random sequences over %d ops (stale handle copies, Any(empty), Merge/Copy, Len, Reset on dirty buffers, Free mid-program); a quarter of the programs run after pooled writers of the same goroutine have failed and released their state (the state an owned writer recycles next); oracles: no call panics; first error sticky (every later error-returning call returns that error, Build never succeeds after it); a successful root Build parses completely; Free (also twice, also after an error) is safe; after Reset a reference program yields the reference bytes; non-trivial = the sequence produced an error or a root Build; distinct = distinct sequences", numReduced, numOps)
+	res.Rule = fmt.Sprintf("call sequences over an explicitly owned writer and its handles: bounded-exhaustive over a %d-op alphabet up to the tier's length, plus seeded random sequences over %d ops (stale handle copies, Any(empty), Merge/Copy, Len, Reset on dirty buffers, Free mid-program); valid programs on every alignment of the writer buffer's growth steps (lists of 0..150 elements, messages of 0..79 fields, nested containers closing after strings/bytes of length 0..309, default and empty buffers); a quarter of the programs run after pooled writers of the same goroutine have failed and released their state (the state an owned writer recycles next); oracles: no call panics; first error sticky (every later error-returning call returns that error, Build never succeeds after it); a successful root Build parses completely; Free (also twice, also after an error) is safe; after Reset a reference program yields the reference bytes; non-trivial = the sequence produced an error or a root Build; distinct = distinct sequences", numReduced, numOps)
 	record := func(stream string, idx int, ops []byte, useBuf bool) {
 		res.Eval(1)
 		out, roots, errs := runMisuse(ops, useBuf)
@@ -482,6 +483,9 @@ func C12(c *runner.Cfg) *report.Result {
 		record("fixed", i, ops, false)
 		res.Sample(map[string]any{"fixed_program": progString(ops)})
 	}
+	// valid programs on every alignment of the writer buffer's growth steps: no call panics, the
+	// root Build parses completely
+	growthSweep(c, res)
 	// Len() of valid programs equals the number of elements written (any nesting)
 	validLen(res)
 	return res
@@ -517,4 +521,30 @@ func validLen(res *report.Result) {
 	if p != nil {
 		res.Violate("c12:panic:L.Len", fmt.Sprintf("ListWriter.Len() panicked in a valid nested program: %v\n%s", p, runner.TrimStack(stack)), "msg{1:string, 2:list}.Len()")
 	}
+}
+
+// growthSweep runs the buffer-growth shapes (valid programs) on the default buffer and on an empty
+// caller buffer.
+func growthSweep(c *runner.Cfg, res *report.Result) {
+	x := vg.NewExec()
+	modes := []vg.WriterMode{vg.WFresh, vg.WTinyBuffer}
+	c.Cases("C12/grow", len(modes)*vg.GrowShapes, func(idx int, _ *journal.Slot) {
+		p, mode := vg.GrowShape(idx%vg.GrowShapes), modes[idx/vg.GrowShapes]
+		res.Eval(1)
+		b, err := x.Run(p, mode)
+		if err != nil {
+			res.Violate("c12:valid-program-failed", fmt.Sprintf("a valid program returned an error: %v", err), map[string]any{"stream": "grow", "index": idx, "mode": mode.String(), "program": p.String()})
+			return
+		}
+		v, n, err := spec.ParseValue(b)
+		if err != nil || n != len(b) || len(v) != len(b) {
+			res.Violate("c12:root-build-does-not-parse", fmt.Sprintf("the bytes of a successful root Build do not parse completely (n=%d of %d, err=%v)", n, len(b), err), map[string]any{"stream": "grow", "index": idx, "mode": mode.String(), "program": p.String()})
+			return
+		}
+		res.Nontrivial(rng.HashBytes(b) ^ uint64(mode))
+		res.Count("root_builds_parsed", 1)
+	}, func(idx int, p any, stack string) {
+		res.Violate("c12:"+runner.PanicKey(p, stack), fmt.Sprintf("a call of a valid program panicked: %v", p),
+			map[string]any{"stream": "grow", "index": idx, "mode": modes[idx/vg.GrowShapes].String(), "program": vg.GrowShape(idx % vg.GrowShapes).String(), "stack": runner.TrimStack(stack)})
+	})
 }
